@@ -213,9 +213,10 @@ def main():
                                "(imported from /repo's working tree on every run) with z3; "
                                "virtual asyncio loop; counterexamples replayed concretely"},
             {"name": "ast2smt", "path": "engine/ast2smt.py",
-             "serves_properties": ["C13", "C09"],
-             "kind_free_text": "Python-AST -> SMT-LIB translation of straight-line arithmetic "
-                               "kernels re-read from /repo on every run; z3 and cvc5 must agree"},
+             "serves_properties": ["C13"],
+             "kind_free_text": "Python-AST -> SMT-LIB translation of rate_limit.update re-read from "
+                               "/repo on every run; inductive obligations discharged by the z3 and cvc5 "
+                               "binaries, which must agree"},
         ],
         "checks": checks,
         "not_applicable": na,
